@@ -7,6 +7,7 @@ import (
 	"fmt"
 	"hash/fnv"
 	"os"
+	"runtime/debug"
 	"sort"
 	"sync"
 	"testing"
@@ -173,9 +174,30 @@ func (s *Stats) flush() {
 
 // Main is called from TestMain of every check package.
 func Main(m *testing.M) {
+	// runaway recursion in the code under test shall end the process quickly (and recognisably) instead of eating
+	// a gigabyte of stack first
+	debug.SetMaxStack(96 << 20)
+
 	code := m.Run()
 	S.flush()
 	os.Exit(code)
+}
+
+// Pending records the case which is about to be executed, for inputs that can kill the process (runtime fatal errors
+// cannot be recovered, so neither rapid nor the test gets a chance to report the input). The driver attaches the
+// file to the replay record when the test binary dies.
+func Pending(format string, args ...any) {
+	if os.Getenv("VERIF_WORK") == "" {
+		return
+	}
+
+	msg := fmt.Sprintf(format, args...)
+	if len(msg) > 16384 {
+		msg = msg[:16384] + "...(cut)"
+	}
+
+	// the driver gives every unit its own working directory
+	_ = os.WriteFile("pending.txt", []byte(msg), 0o600)
 }
 
 // ---- known findings -------------------------------------------------------------------------
